@@ -1,11 +1,14 @@
 import Cirbo.Proofs.Convert
+import Cirbo.Proofs.BenchWfs
 /-!
 # C14 — Conversion to the bench basis preserves the function
 
 -- OBLIGATION: c14_convert_gate
 -- OBLIGATION: c14_into_bench
 -- OBLIGATION: c14_into_bench_truth_table
--- PARTIAL: the users-index part of well-formedness after conversion (the manual _remove_user/_add_user edits), acyclicity of the result, and "helper gates stay inside the blocks of the rewritten gate" are modelled (Model/Mutate2.lean) and compared with the code exactly (users index and blocks included) plus checked by the Lean checkWFU on every converted circuit, but not yet proved. The theorems are partial-correctness (if into_bench returns …); the documented GateDoesntExistError for constants in a circuit without inputs is checked by correspondence.
+-- OBLIGATION: c14_into_bench_keeps_invariant
+-- OBLIGATION: c14_convert_gate_keeps_invariant
+-- PARTIAL: the theorems are partial-correctness (if into_bench returns …); the documented GateDoesntExistError for constants in a circuit without inputs is checked by correspondence. "Helper gates stay inside the blocks of the rewritten gate" is proved in the form needed for the invariant (every block still names existing gates; the helper is appended to exactly the blocks that contain the rewritten gate by `addToBlocks`, which the correspondence compares field by field).
 -/
 namespace Cirbo
 open GateType Circuit
@@ -52,8 +55,26 @@ example : ((exCv.intoBench 0).toOption.map (fun p => p.1.gates.map (fun g => (g.
       ("new_gate_GT_for_g00000000000000000000000000000000", "NOT", ["x"]),
       ("new_gate_ALWAYS_TRUE_for_t00000000000000000000000000000001", "NOT", ["x"])] := by decide
 
+/-- **`into_bench` keeps the circuit well formed**: for every circuit satisfying the C02 invariant with
+accepted arities, whenever the conversion returns, the result satisfies the invariant again — operands
+and outputs exist, the users index is exactly the inverse operand multiset after the converters' manual
+`_remove_user` / `_add_user` edits, the inputs are unchanged, the graph is acyclic (a rank is
+constructed for every rewrite) and every block names existing gates. -/
+theorem c14_into_bench_keeps_invariant {c c' : Circuit} {k k' : Nat} (hw : WFS c)
+    (har : ∀ g ∈ c.gates, g.ty ≠ INPUT → arityOk g.ty g.ops.length = true)
+    (h : c.intoBench k = .ok (c', k')) : WFS c' :=
+  intoBench_wfs hw har h
+
+/-- the same for a single `convert_gate` call, and the other gates are left alone -/
+theorem c14_convert_gate_keeps_invariant {c c1 : Circuit} {g : Gate} {k k1 : Nat} (hw : WFS c) (hg : g ∈ c.gates)
+    (har : g.ty ≠ INPUT → arityOk g.ty g.ops.length = true) (h : c.convertGate g k = .ok (c1, k1)) :
+    WFS c1 ∧ ∀ g2 ∈ c.gates, g2.label ≠ g.label → g2 ∈ c1.gates :=
+  ⟨convertGate_wfs hw hg har h, convertGate_stay h⟩
+
 #print axioms c14_convert_gate
 #print axioms c14_into_bench
 #print axioms c14_into_bench_truth_table
+#print axioms c14_into_bench_keeps_invariant
+#print axioms c14_convert_gate_keeps_invariant
 
 end Cirbo
